@@ -36,8 +36,8 @@ CHECKS = {
    design="5/C14"),
 
  "C02": dict(
-   text="Two bounded model-checking harnesses over the real code. (1) Kernel: sanitiseZipExtractPath (with the real filepath.Join/Clean and strings code) on an entry name of 0..4 (thorough 6) FULLY symbolic bytes against 8 destination shapes: z3 decides that every accepted name resolves -- by an independent naive component-stack resolution -- inside the destination, that the returned path is that resolved location, that rejections carry the 'malicious' kind, and (completeness) that legal names are accepted outside two recorded known-finding regions. (2) Call sites: the real unzip over real archives (archive/zip writer and reader interpreted) of 1..2 entries named over a small alphabet, optionally with a nested archive (whose own name also ranges over the alphabet) in recursive mode, next to a sibling directory whose name extends the destination's, destination given with or without a trailing separator, on afero's real MemMapFs behind a recording wrapper: every mutating backend operation targets the destination or below, nothing outside changes, escaping entries are refused as malicious, handles are balanced.",
-   note="Lexical path semantics on Linux separators; names that are not valid UTF-8 are covered up to the sanitiser but the charset detection/transcoding applied afterwards is outside (chardet statistics not encodable); symbolic links in the destination tree and the OS-backed filesystem are outside.",
+   text="Two bounded model-checking harnesses over the real code. (1) Kernel: sanitiseZipExtractPath (with the real filepath.Join/Clean and strings code) on an entry name of 0..4 (thorough 6) FULLY symbolic bytes against 8 destination shapes: z3 decides that every accepted name resolves -- by an independent naive component-stack resolution -- inside the destination, that the returned path is that resolved location, that rejections carry the 'malicious' kind, and (completeness) that legal names are accepted outside two recorded known-finding regions. (2) Call sites: the real unzip over real archives (archive/zip writer and reader interpreted) of 1..2 entries named over a small alphabet, optionally with a nested archive (whose own name also ranges over the alphabet) in recursive mode, next to a sibling directory whose name extends the destination's, destination given with or without a trailing separator, on afero's real MemMapFs behind a recording wrapper: every mutating backend operation targets the destination or below, nothing outside changes, escaping entries are refused as malicious, handles are balanced. (3) Names that are not valid UTF-8 (over {'.','/','x',0xFE}, length <= 4, thorough 6) through the real charset detection and conversion into three destinations: no mutation outside the destination whatever the conversion makes of the name.",
+   note="Lexical path semantics on Linux separators; the charset detector is statistical, so names that are not valid UTF-8 are covered for the stated alphabet and destinations only; symbolic links in the destination tree and the OS-backed filesystem are outside.",
    technique="symbolic execution of go/ssa + SMT (QF_BV) over symbolic byte strings; bounded enumeration for the call-site harness; native replay",
    design="5/C02"),
  "C03": dict(
@@ -83,7 +83,7 @@ CHECKS = {
    technique="symbolic execution of go/ssa on a cooperative scheduler, DFS over scheduling decisions with a preemption bound (bounded model checking)",
    design="5/C12"),
  "C13": dict(
-   text="Bounded model checking over SCHEDULES of the library's own sinks and composites: the plain string logger (StringWriter through the real log.Logger) with two producers on the same or on the output and error streams, NewCombinedLoggers with Log || LogError, Log || Append and Append || Append, and a composite built from a caller-owned slice that the caller appends to afterwards: every interleaving with at most 2 preemptions at lock/atomic/channel operations and INSIDE every strings.Builder append and member append (modelled as non-atomic read-modify-write): every message reaches the sink exactly once and intact, composites deliver every message to every member exactly once, every appended member is kept, the composite owns its member list. The check found the RLock-for-a-write defect of StringWriter, which is fixed.",
+   text="Bounded model checking over SCHEDULES of the library's own sinks and composites: the plain string logger (StringWriter through the real log.Logger) with two producers on the same or on the output and error streams, NewCombinedLoggers with Log || LogError, Log || Append and Append || Append, and a composite built from a caller-owned slice that the caller appends to afterwards: every interleaving with at most 2 preemptions at lock/atomic/channel operations and INSIDE every strings.Builder append and member append (modelled as non-atomic read-modify-write): every message reaches the sink exactly once and intact, composites deliver every message to every member exactly once, every appended member is kept, the composite owns its member list; a composite writer (MultipleWritersWithSource behind the real log.Logger) with members that fail, write short or fail once still offers every message to every member and closes them all. The check found the RLock-for-a-write defect of StringWriter, which is fixed.",
    note="Third-party adapters (zap, logrus, hclog, slog, logr, diode ring buffer, file/JSON loggers) are not encoded; memory is sequentially consistent; not natively replayable.",
    technique="symbolic execution of go/ssa on a cooperative scheduler, DFS over scheduling decisions with a preemption bound (bounded model checking)",
    design="5/C13"),
@@ -95,8 +95,8 @@ CHECKS = {
    design="0.3/C16"),
 
  "C06": dict(
-   text="Bounded exhaustive exploration of programs of 1 (thorough 1..2) filesystem-API calls -- MkDir, WriteFile, Rm, CleanDir, TouchTempFile, Copy, CopyToDirectory, Move, IsDir, Exists, Ls, ReadFile -- over the path alphabet {/a, /a/b, /a/b/c, /d, /d/e} from 5 initial trees (so that source = / parent of / inside the destination, missing/existing entries and file-versus-directory conflicts occur), real code on afero's real MemMapFs behind a recording wrapper: every call terminates (<= 400 backend operations), leaves no handle open, changes nothing but its destination (plus newly created ancestor directories; for Move also the source), a copy leaves its source untouched (contents, permissions and modification times), query calls change nothing and answer exactly what the tree says. Under faults (the k-th backend operation of a copy / write / read / listing / file move / directory move fails, rename possible or not): no handle stays open, the source of a copy is untouched, a move never loses a file (every source file is still at the source or has arrived at the destination). Six known-finding regions are recorded (copy into own subtree diverges; move into own subtree crashes the in-memory backend; entries created beneath a file on the in-memory backend; that backend left inconsistent after a conflicting call; copy of a file onto itself re-stamps it; the directory-move fallback deletes a source it could not read).",
-   note="Only the second sentence of the property is claimed (plus exact answers of the query calls): agreement of return values and resulting trees with a reference model of cp -r / mv on BOTH backends is not claimed -- the OS backend cannot be executed symbolically and the doc comments leave Copy's destination resolution open.",
+   text="Bounded exhaustive exploration of programs of 1 (thorough 1..2) filesystem-API calls -- MkDir, WriteFile, Rm, CleanDir, TouchTempFile, Copy, CopyToDirectory, Move, IsDir, Exists, Ls, ReadFile -- over the path alphabet {/a, /a/b, /a/b/c, /d, /d/e} from 6 initial trees (so that source = / parent of / inside the destination, missing/existing entries and file-versus-directory conflicts occur), real code on afero's real MemMapFs behind a recording wrapper: every call terminates (<= 400 backend operations), leaves no handle open, changes nothing but its destination (plus newly created ancestor directories; for Move also the source), a copy leaves its source untouched (contents, permissions and modification times), query calls change nothing and answer exactly what the tree says. Under faults (the k-th backend operation of a copy / write / read / listing / file move / directory move fails, rename possible or not): no handle stays open, the source of a copy is untouched, a move never loses a file (every source file is still at the source or has arrived at the destination). A copy that reports success has delivered the source (every source entry with its kind and content at the destination root -- the destination itself or, when that is a directory, the source's name inside it -- and everything else there unchanged: merge semantics). Seven known-finding regions are recorded (a directory copied onto a regular file reports success; copy into own subtree diverges; move into own subtree crashes the in-memory backend; entries created beneath a file on the in-memory backend; that backend left inconsistent after a conflicting call; copy of a file onto itself re-stamps it; the directory-move fallback deletes a source it could not read).",
+   note="The second sentence of the property, exact answers of the query calls and -- of the first sentence -- the content delivered by a successful copy are claimed, on the in-memory backend: agreement of return values and resulting trees with a full reference model of cp -r / mv on BOTH backends is not claimed -- the OS backend cannot be executed symbolically and the doc comments leave Copy's destination resolution open.",
    technique="symbolic execution of go/ssa with DFS over programs x paths x initial trees (bounded model checking), native replay",
    design="5/C06"),
 }
